@@ -416,6 +416,27 @@ def run(rep, tier, seed):
     suitetrace.validate(rep, 'tests/test_cassettes/async (free-running threads)', 'AsyncTrace', suitetrace.async_traces(events))
     # ... and seeded free-running workloads with real threads and a real flusher (no scheduler), logged by the same hooks
     free_running(rep, seed, 40 if quick else 1500)
+    composition(rep, tier, seed)
+
+
+def _keeps(beh):
+    return any(st['ev']['decision'] == 'keep' for st in beh)
+
+
+def composition(rep, tier, seed):
+    """The property at the level a user meets it: TapeRecorder -> AsyncRecordOnlyTapeCassette (real flusher thread) ->
+    in-memory cassette must leave the store Recorder.tla prescribes for direct recording (behaviours of the recorder
+    specification with faults, discards, forcing and interrupts; see recprops._AsyncComposite)."""
+    from ..recprops import RecorderCheck, K
+    from . import c05
+    chk = RecorderCheck(rep, tier, seed, {'store_presence', 'store_keys', 'store_values', 'finalised', 'pmissing'},
+                        _keeps)
+    try:
+        chk.generate('composition', c05.gen_consts(3, Classes=[K('K1')], Draws=['low'], InCalls=[('ia2', 1)],
+                                                   OutAliases=['oa2'], SaveFails=[False]),
+                     cassettes=('async',), n_conc=1 if tier == 'quick' else 4, sample=500 if tier == 'quick' else 20000)
+    finally:
+        chk.close()
 
 
 def free_running(rep, seed, n):
@@ -460,6 +481,9 @@ def replay(rep, body):
     if rp.get('kind') == 'suite-trace':
         from .. import suitetrace
         return suitetrace.replay_trace(body)
+    if 'behaviour' in rp:
+        from ..recprops import replay_file
+        return replay_file(rep, body, {'store_presence', 'store_keys', 'store_values', 'finalised', 'pmissing'})
     res = execute(WORKLOADS[rp['workload']], rp['failing'], rp['moves'], rp.get('anchor_seed'))
     for v in res['violations']:
         print('VIOLATING', v[:500])
